@@ -18,11 +18,11 @@ From Coq Require Import String Ascii List Bool Arith NArith.
 Import ListNotations.
 Open Scope string_scope.
 
-Definition nat_in (lo hi n : nat) : bool := Nat.leb lo n && Nat.leb n hi.
-Definition is_blank (c : ascii) : bool := let n := nat_of_ascii c in Nat.eqb n 32 || Nat.eqb n 9.
-Definition is_digit (c : ascii) : bool := nat_in 48 57 (nat_of_ascii c).
+Definition n_in (lo hi n : N) : bool := N.leb lo n && N.leb n hi.
+Definition is_blank (c : ascii) : bool := let n := N_of_ascii c in N.eqb n 32 || N.eqb n 9.
+Definition is_digit (c : ascii) : bool := n_in 48 57 (N_of_ascii c).
 Definition is_alpha (c : ascii) : bool :=
-  let n := nat_of_ascii c in nat_in 65 90 n || nat_in 97 122 n || Nat.eqb n 95.
+  let n := N_of_ascii c in n_in 65 90 n || n_in 97 122 n || N.eqb n 95.
 Definition is_alnum (c : ascii) : bool := is_alpha c || is_digit c.
 
 Inductive sym := SLBrack | SRBrack | SComma | SPlus | SStar | SMinus | SEq | SLPar | SRPar | SDot.
@@ -34,11 +34,11 @@ Definition sym_char (s : sym) : ascii :=
   end.
 
 Definition sym_of_char (c : ascii) : option sym :=
-  let n := nat_of_ascii c in
-  if Nat.eqb n 91 then Some SLBrack else if Nat.eqb n 93 then Some SRBrack else if Nat.eqb n 44 then Some SComma
-  else if Nat.eqb n 43 then Some SPlus else if Nat.eqb n 42 then Some SStar else if Nat.eqb n 45 then Some SMinus
-  else if Nat.eqb n 61 then Some SEq else if Nat.eqb n 40 then Some SLPar else if Nat.eqb n 41 then Some SRPar
-  else if Nat.eqb n 46 then Some SDot else None.
+  let n := N_of_ascii c in
+  if N.eqb n 91 then Some SLBrack else if N.eqb n 93 then Some SRBrack else if N.eqb n 44 then Some SComma
+  else if N.eqb n 43 then Some SPlus else if N.eqb n 42 then Some SStar else if N.eqb n 45 then Some SMinus
+  else if N.eqb n 61 then Some SEq else if N.eqb n 40 then Some SLPar else if N.eqb n 41 then Some SRPar
+  else if N.eqb n 46 then Some SDot else None.
 
 Definition sym_eqb (a b : sym) : bool :=
   match a, b with
@@ -180,7 +180,7 @@ Fixpoint sepfree (ts : list token) : bool :=
   end.
 
 (* decimal value of a digit string (Python's int() on a DIGIT+ token, leading zeros allowed) *)
-Definition digit_val (c : ascii) : N := N.of_nat (nat_of_ascii c - 48).
+Definition digit_val (c : ascii) : N := (N_of_ascii c - 48)%N.
 Fixpoint value_acc (acc : N) (s : string) : N :=
   match s with EmptyString => acc | String c r => value_acc (acc * 10 + digit_val c)%N r end.
 Definition value (s : string) : N := value_acc 0%N s.
